@@ -443,61 +443,138 @@ enum Flow {
 }
 
 /// Node-level scenario: the oracle set a node validates blocks against must survive a restart.
+/// `variant % 3`: 0 = restart, then a block attested by an untrusted key only; 1 = restart, then a
+/// properly attested block; 2 = no restart, untrusted attestation.  `variant / 3 % 2 == 1`: wire
+/// delivery: the signer is built (and rebuilt at the restart) by `HandlerBuilder` as vlsd builds
+/// it, configured with the trusted oracle key, and every block is delivered as the chain follower
+/// does (`chainpool::wire_add`: TipInfo, ForwardWatches, AddBlock messages to the root handler,
+/// which persists the tracker itself).  The handler answers a refused block with a panic, which
+/// is not an acceptance.
 fn run_node_restore(blocks: u8, variant: u8, st: &mut CaseStats, ctx: &Ctx) -> Result<(), Violation> {
-    use crate::chainpool::{make_block, make_proof, regtest_cfg};
+    use crate::chainpool::{make_block, make_proof, regtest_cfg, wire_add_with, ChainSim, Deliver, WireLog};
+    use crate::props::proto::{Negotiation, ProtoWorld};
     use lightning_signer::bitcoin::key::Keypair;
     use lightning_signer::bitcoin::secp256k1::{Secp256k1, SecretKey};
+    use lightning_signer::txoo::proof::TxoProof;
     use lightning_signer::txoo::util::sign_attestation;
     let secp = Secp256k1::new();
     // chainpool::make_proof signs with this key
     let trusted = PublicKey::from_secret_key(&secp, &SecretKey::from_slice(&[2u8; 32]).unwrap());
     let mut cfg = regtest_cfg();
     cfg.trusted_oracles = vec![trusted];
-    let mut w = crate::world::World::new(cfg);
-    let connect = |w: &crate::world::World, untrusted: bool, salt: u64| -> Result<(), String> {
-        let node = w.node.clone();
-        let mut tracker = node.get_tracker();
-        let height = tracker.height() + 1;
-        let block = make_block(&tracker.tip().0, height, salt, vec![]);
-        let (txids, outpoints) = tracker.get_all_forward_watches();
-        let mut proof = make_proof(&block, &tracker.tip().1, height, &txids, &outpoints, false);
-        if untrusted {
-            let kp = Keypair::from_secret_key(&secp, &SecretKey::from_slice(&[0x55u8; 32]).unwrap());
-            let pk = PublicKey::from_secret_key(&secp, &SecretKey::from_slice(&[0x55u8; 32]).unwrap());
-            let att = proof.attestations[0].1.attestation.clone();
-            proof.attestations = vec![(pk, sign_attestation(att, &kp, &secp))];
-        }
-        match tracker.add_block(block.header, proof) {
-            Ok(()) => {
-                node.get_persister().update_tracker(&node.get_id(), &tracker).map_err(|e| format!("{:?}", e))?;
-                Ok(())
-            }
-            Err(e) => Err(format!("{:?}", e)),
-        }
+    let wire = variant / 3 % 2 == 1;
+    // the same attestation signed by a key the node does not trust
+    let forge = |mut proof: TxoProof| -> TxoProof {
+        let kp = Keypair::from_secret_key(&secp, &SecretKey::from_slice(&[0x55u8; 32]).unwrap());
+        let pk = PublicKey::from_secret_key(&secp, &SecretKey::from_slice(&[0x55u8; 32]).unwrap());
+        let att = proof.attestations[0].1.attestation.clone();
+        proof.attestations = vec![(pk, sign_attestation(att, &kp, &secp))];
+        proof
     };
-    for k in 0..blocks.max(1) {
-        if let Err(e) = connect(&w, false, k as u64) {
-            panic!("harness: attested block refused by a fresh node: {}", e);
-        }
-    }
     let restarted = variant % 3 != 2;
-    if restarted {
-        let r = w.restart();
-        if !r.is_ok() {
-            st.class("node-restore:restart-failed");
-            return Ok(());
-        }
-    }
     let untrusted = variant % 3 != 1;
-    let res = connect(&w, untrusted, 99);
-    st.class(format!("node-restore:{}:{}:{}", if restarted { "restarted" } else { "running" }, if untrusted { "untrusted-attestation" } else { "trusted-attestation" }, if res.is_ok() { "accepted" } else { "refused" }));
+    // Ok(()) accepted, Err((aborted, text)) refused / aborted
+    let res: Result<(), (bool, String)>;
+    if wire {
+        let mut pw = ProtoWorld::new(cfg, 6, Negotiation::SignerCap);
+        let mut sim = ChainSim::new(lightning_signer::bitcoin::Network::Regtest);
+        let mut log = WireLog::default();
+        let mut connect = |pw: &ProtoWorld, sim: &mut ChainSim, untrusted: bool, salt: u64| -> Result<(), (bool, String)> {
+            let block = make_block(&sim.tip_header(), sim.height() + 1, salt, vec![]);
+            let prev_fh = sim.tip_filter_header();
+            let d = wire_add_with(&pw.root, &block, &prev_fh, false, 0, &mut log, |p| if untrusted { forge(p) } else { p });
+            match d {
+                Deliver::Ok => {
+                    sim.push(block, vec![]);
+                    Ok(())
+                }
+                Deliver::Refused(e) => Err((false, e)),
+                Deliver::Panic(p) => Err((true, p)),
+            }
+        };
+        for k in 0..blocks.max(1) {
+            if let Err((_, e)) = connect(&pw, &mut sim, false, k as u64) {
+                panic!("harness: attested block refused by a fresh node (wire): {}", e);
+            }
+        }
+        if restarted {
+            let r = pw.restart();
+            if !r.is_ok() {
+                st.class("node-restore:restart-failed");
+                return Ok(());
+            }
+        }
+        res = connect(&pw, &mut sim, untrusted, 99);
+        drop(connect);
+        for c in log.classes() {
+            st.class(format!("node-restore:{}", c));
+        }
+    } else {
+        let mut w = crate::world::World::new(cfg);
+        let connect = |w: &crate::world::World, untrusted: bool, salt: u64| -> Result<(), String> {
+            let node = w.node.clone();
+            let mut tracker = node.get_tracker();
+            let height = tracker.height() + 1;
+            let block = make_block(&tracker.tip().0, height, salt, vec![]);
+            let (txids, outpoints) = tracker.get_all_forward_watches();
+            let mut proof = make_proof(&block, &tracker.tip().1, height, &txids, &outpoints, false);
+            if untrusted {
+                proof = forge(proof);
+            }
+            match tracker.add_block(block.header, proof) {
+                Ok(()) => {
+                    node.get_persister().update_tracker(&node.get_id(), &tracker).map_err(|e| format!("{:?}", e))?;
+                    Ok(())
+                }
+                Err(e) => Err(format!("{:?}", e)),
+            }
+        };
+        for k in 0..blocks.max(1) {
+            if let Err(e) = connect(&w, false, k as u64) {
+                panic!("harness: attested block refused by a fresh node: {}", e);
+            }
+        }
+        if restarted {
+            let r = w.restart();
+            if !r.is_ok() {
+                st.class("node-restore:restart-failed");
+                return Ok(());
+            }
+        }
+        res = connect(&w, untrusted, 99).map_err(|e| (false, e));
+    }
+    let outcome = match &res {
+        Ok(()) => "accepted",
+        Err((false, _)) => "refused",
+        Err((true, _)) => "aborted",
+    };
+    st.class(format!(
+        "node-restore:{}{}:{}:{}",
+        if wire { "wire:" } else { "" },
+        if restarted { "restarted" } else { "running" },
+        if untrusted { "untrusted-attestation" } else { "trusted-attestation" },
+        outcome
+    ));
     if untrusted && res.is_ok() {
         return ctx.report(st, Violation::new(
-            format!("C13:accepted-invalid:attestation:node-{}", if restarted { "after-restart" } else { "running" }),
-            format!("a node configured with one trusted oracle ({} blocks connected{}) accepted a block attested only by an untrusted key", blocks.max(1), if restarted { ", then restarted from its store" } else { "" }),
+            format!("C13:accepted-invalid:attestation:node-{}{}", if restarted { "after-restart" } else { "running" }, if wire { ":wire" } else { "" }),
+            format!(
+                "a node configured with one trusted oracle ({} blocks connected{}{}) accepted a block attested only by an untrusted key",
+                blocks.max(1),
+                if wire { " through AddBlock messages to a signer built by HandlerBuilder" } else { "" },
+                if restarted { ", then restarted from its store" } else { "" }
+            ),
         ));
     }
-    st.nontrivial_shape(("node-restore", blocks.max(1), variant % 3, res.is_ok()));
+    if !untrusted && !res.is_ok() {
+        // over-refusal is no violation of the property; recorded
+        st.class("node-restore:trusted-attestation-not-accepted");
+    }
+    if wire {
+        st.nontrivial_shape(("node-restore-wire", blocks.max(1), variant % 3, res.is_ok()));
+    } else {
+        st.nontrivial_shape(("node-restore", blocks.max(1), variant % 3, res.is_ok()));
+    }
     Ok(())
 }
 
@@ -1139,7 +1216,7 @@ impl Prop for C13 {
             0u8..3,
             prop_oneof![4 => Just(false), 1 => Just(true)],
             proptest::collection::vec(op_strat(), 1..=n),
-            prop_oneof![40 => Just(None), 1 => (1u8..4, 0u8..3).prop_map(Some)],
+            prop_oneof![40 => Just(None), 1 => (1u8..4, 0u8..6).prop_map(Some)],
         )
             .prop_map(|(start, oracles, listeners, allow_deep, ops, node_restore)| {
                 if node_restore.is_some() {
@@ -1201,6 +1278,10 @@ impl Prop for C13 {
                 ],
             },
         ]
+        .into_iter()
+        // the node-level scenario in each of its variants (tracker API and wire delivery)
+        .chain((0u8..6).map(|variant| Case { start: Start::Genesis, oracles: 1, listeners: 0, allow_deep: false, ops: vec![], node_restore: Some((2, variant)) }))
+        .collect()
     }
     fn run(&self, case: &Case, st: &mut CaseStats, ctx: &Ctx) -> Result<(), Violation> {
         if let Some((blocks, variant)) = case.node_restore {
